@@ -31,8 +31,8 @@ def chains(names, maxlen, src_pull_based=False):
     return out
 
 
-def T(name, menu=(1, 2, 3), ins=(), outs=(), start=0, fixed=None, pull_initial=True):
-    return dict(name=name, kind="T", menu=list(menu), ins=list(ins), outs=list(outs), start=start, fixed=fixed, pull_initial=pull_initial)
+def T(name, menu=(1, 2, 3), ins=(), outs=(), start=0, fixed=None, pull_initial=True, finish_at=None):
+    return dict(name=name, kind="T", menu=list(menu), ins=list(ins), outs=list(outs), start=start, fixed=fixed, pull_initial=pull_initial, finish_at=finish_at)
 
 
 def P(name, ins=("i",), outs=("o",)):
